@@ -1,10 +1,14 @@
 import PMV.Model.NI
+import PMV.Lemmas.Bcast
+import PMV.Lemmas.Lanes
 /-
   C03 — masked values do not exist: hidden numbers never influence any observable result.
-  Non-interference theorems about the code-shaped definitions of Model/NI.lean.  Core Lean only.
+  Non-interference theorems about the code-shaped definitions of Model/NI.lean.  Core Lean only
+  (the imported lemma files on broadcasting and reduction lanes are core Lean too).
 
   `CLow`/`ALow`/`LowEq` : low-equivalence (same shape, same expanded mask, equal values where unmasked,
                           ARBITRARY values underneath the masks), for elements, arrays and objects.
+                          `ALow` speaks about the indices INSIDE the shape only.
   `obsArr`/`obsObj`/`obsRes` (Model/NI.lean): what can be observed.
   All theorems hold for EVERY choice of the numeric primitives `P : Prims K`.
 -/
@@ -22,16 +26,19 @@ inductive F2 {α : Type} (R : α → α → Prop) : List α → List α → Prop
 /-- two stored elements are low-equivalent: same mask bit, and the same value unless masked -/
 def CLow {α : Type} (c c' : Cell α) : Prop := c.m = c'.m ∧ (c.m = false → c.v = c'.v)
 
-/-- arrays: same shape, element-wise low-equivalent (arrays are total functions on indices) -/
-def ALow {α : Type} (a b : MArr α) : Prop := a.shape = b.shape ∧ ∀ i, CLow (a.get i) (b.get i)
+/-- arrays: same shape, and low-equivalent elements at every index inside the shape -/
+def ALow {α : Type} (a b : MArr α) : Prop := a.shape = b.shape ∧ ∀ i, Valid a.shape i → CLow (a.get i) (b.get i)
 
-def DLow : Option (MArr K) → Option (MArr K) → Prop
+/-- derivative of an object whose main array has shape `s`: absent in both, or present in both with
+    that shape and low-equivalent under its own mask -/
+def DLow (s : Shape) : Option (MArr K) → Option (MArr K) → Prop
   | none, none => True
-  | some a, some b => ALow a b
+  | some a, some b => a.shape = s ∧ ALow a b
   | _, _ => False
 
-/-- objects: the main array and the derivative are low-equivalent, each under its own mask -/
-def LowEq (x y : Obj K) : Prop := ALow x.main y.main ∧ DLow x.d y.d
+/-- objects: the main arrays are low-equivalent and so are the derivatives (which have the shape of
+    the main array, as `insert_deriv` guarantees) -/
+def LowEq (x y : Obj K) : Prop := ALow x.main y.main ∧ DLow x.main.shape x.d y.d
 
 /-- outcomes: the same exception, or low-equivalent results (so the relation is a congruence) -/
 def RLow : Except Err (Obj K) → Except Err (Obj K) → Prop
@@ -58,10 +65,11 @@ theorem CLow.eq_of_unmasked {α : Type} {c c' : Cell α} (h : CLow c c') (hm : c
   subst hm; subst h1
   rw [h2 rfl]
 
-theorem ALow.refl {α : Type} (a : MArr α) : ALow a a := ⟨rfl, fun i => CLow.refl _⟩
-theorem ALow.symm {α : Type} {a b : MArr α} (h : ALow a b) : ALow b a := ⟨h.1.symm, fun i => (h.2 i).symm⟩
+theorem ALow.refl {α : Type} (a : MArr α) : ALow a a := ⟨rfl, fun _ _ => CLow.refl _⟩
+theorem ALow.symm {α : Type} {a b : MArr α} (h : ALow a b) : ALow b a :=
+  ⟨h.1.symm, fun i hi => (h.2 i (by rw [h.1]; exact hi)).symm⟩
 theorem ALow.trans {α : Type} {a b c : MArr α} (h1 : ALow a b) (h2 : ALow b c) : ALow a c :=
-  ⟨h1.1.trans h2.1, fun i => (h1.2 i).trans (h2.2 i)⟩
+  ⟨h1.1.trans h2.1, fun i hi => (h1.2 i hi).trans (h2.2 i (by rw [← h1.1]; exact hi))⟩
 
 /-! ### ni_elem: element functions -/
 
@@ -152,17 +160,20 @@ theorem ni_elem_ord (cmp : K → K → Bool) {a a' b b' : Cell K} (ha : CLow a a
 
 theorem ALow_map {α β : Type} {f : Cell α → Cell β} (hf : ∀ c c', CLow c c' → CLow (f c) (f c'))
     {a b : MArr α} (h : ALow a b) : ALow (a.map f) (b.map f) :=
-  ⟨h.1, fun i => hf _ _ (h.2 i)⟩
+  ⟨h.1, fun i hi => hf _ _ (h.2 i hi)⟩
 
 theorem ALow_zip {α β γ : Type} {f : Cell α → Cell β → Cell γ}
     (hf : ∀ a a' b b', CLow a a' → CLow b b' → CLow (f a b) (f a' b'))
-    {a a' : MArr α} {b b' : MArr β} (ha : ALow a a') (hb : ALow b b') : ALow (zip f a b) (zip f a' b') :=
-  ⟨ha.1, fun i => hf _ _ _ _ (ha.2 i) (hb.2 i)⟩
+    {a a' : MArr α} {b b' : MArr β} (hs : a.shape = b.shape) (ha : ALow a a') (hb : ALow b b') :
+    ALow (zip f a b) (zip f a' b') :=
+  ⟨ha.1, fun i hi => hf _ _ _ _ (ha.2 i hi) (hb.2 i (by rw [← hs]; exact hi))⟩
 
-theorem ALow_bto {α : Type} {a b : MArr α} (h : ALow a b) (out : Shape) : ALow (a.bto out) (b.bto out) :=
-  ⟨rfl, fun i => by
+/-- broadcasting to `out` (every index of `out` projects into the operand's shape - `bidx_valid`) -/
+theorem ALow_bto {α : Type} {a b : MArr α} (h : ALow a b) {out : Shape}
+    (hv : ∀ i, Valid out i → Valid a.shape (bidx a.shape i)) : ALow (a.bto out) (b.bto out) :=
+  ⟨rfl, fun i hi => by
     show CLow (a.get (bidx a.shape i)) (b.get (bidx b.shape i))
-    rw [h.1]; exact h.2 _⟩
+    rw [← h.1]; exact h.2 _ (hv i hi)⟩
 
 theorem toList_map {α β : Type} (g : α → β) (a : Arr α) : (a.map g).toList = a.toList.map g := by
   simp [Arr.toList, Arr.map]
@@ -170,10 +181,10 @@ theorem toList_map {α β : Type} (g : α → β) (a : Arr α) : (a.map g).toLis
 /-- anything computed from the elements through a function that respects low-equivalence is equal -/
 theorem toList_map_congr {α β : Type} {g : Cell α → β} (hg : ∀ c c', CLow c c' → g c = g c')
     {a b : MArr α} (h : ALow a b) : a.toList.map g = b.toList.map g := by
-  simp only [Arr.toList, List.map_map, h.1]
+  simp only [Arr.toList, List.map_map, ← h.1]
   apply List.map_congr_left
-  intro i _
-  exact hg _ _ (h.2 i)
+  intro i hi
+  exact hg _ _ (h.2 i ((mem_indices _ _).1 hi))
 
 theorem toList_any_congr {α : Type} {g : Cell α → Bool} (hg : ∀ c c', CLow c c' → g c = g c')
     {a b : MArr α} (h : ALow a b) : a.toList.any g = b.toList.any g := by
@@ -182,20 +193,23 @@ theorem toList_any_congr {α : Type} {g : Cell α → Bool} (hg : ∀ c c', CLow
     intro l; simp [List.any_map]
   rw [e, e, this]
 
-theorem toList_forall2 {α : Type} {a b : MArr α} (h : ALow a b) : F2 CLow a.toList b.toList := by
-  simp only [Arr.toList, h.1]
-  generalize indices b.shape = l
+theorem F2_map {α β : Type} {R : β → β → Prop} (f g : α → β) (l : List α) (h : ∀ x ∈ l, R (f x) (g x)) :
+    F2 R (l.map f) (l.map g) := by
   induction l with
   | nil => exact .nil
-  | cons x xs ih => exact .cons (h.2 x) ih
+  | cons x xs ih => exact .cons (h x (by simp)) (ih fun y hy => h y (by simp [hy]))
 
-theorem lane_forall2 {α : Type} {a b : MArr α} (h : ALow a b) (axes : List Nat) (o : Index) :
-    F2 CLow (a.lane axes o) (b.lane axes o) := by
-  simp only [Arr.lane, h.1]
-  generalize indices (keepAxes axes b.shape) = l
-  induction l with
-  | nil => exact .nil
-  | cons x xs ih => exact .cons (h.2 _) ih
+theorem toList_forall2 {α : Type} {a b : MArr α} (h : ALow a b) : F2 CLow a.toList b.toList := by
+  simp only [Arr.toList, ← h.1]
+  exact F2_map _ _ _ fun i hi => h.2 i ((mem_indices _ _).1 hi)
+
+/-- the lanes of low-equivalent arrays are element-wise low-equivalent (the lane of a valid output
+    index reads valid input indices - `lanes_partition`) -/
+theorem lane_forall2 {α : Type} {a b : MArr α} (h : ALow a b) (axes : List Nat) (o : Index)
+    (ho : Valid (dropAxes axes a.shape) o) : F2 CLow (a.lane axes o) (b.lane axes o) := by
+  simp only [Arr.lane, ← h.1]
+  exact F2_map _ _ _ fun r hr =>
+    h.2 _ ((lanes_partition axes a.shape).2 o r ho ((mem_indices _ _).1 hr)).1
 
 /-- **ni_lift** (element-wise layer): strict element functions lift to arrays, with broadcasting -/
 theorem ni_lift_unary {f : Cell K → Cell K} (hf : ∀ c, c.m = true → (f c).m = true) {a b : MArr K}
@@ -203,28 +217,10 @@ theorem ni_lift_unary {f : Cell K → Cell K} (hf : ∀ c, c.m = true → (f c).
   ALow_map (fun _ _ => strict1_congr hf) h
 
 theorem ni_lift_binary {f : Cell K → Cell K → Cell K} (hf : ∀ a b, (a.m = true ∨ b.m = true) → (f a b).m = true)
-    {a a' b b' : MArr K} (ha : ALow a a') (hb : ALow b b') (out : Shape) :
+    {a a' b b' : MArr K} (ha : ALow a a') (hb : ALow b b') {out : Shape} (hbc : bcast a.shape b.shape = some out) :
     ALow (zip f (a.bto out) (b.bto out)) (zip f (a'.bto out) (b'.bto out)) :=
-  ALow_zip (fun _ _ _ _ => strict2_congr hf) (ALow_bto ha out) (ALow_bto hb out)
-
-/-- comparisons: low-equivalent operands give the SAME Boolean array (or both fail to broadcast) -/
-theorem ni_cmp {f : Cell K → Cell K → Cell Bool} (hf : ∀ a a' b b', CLow a a' → CLow b b' → f a b = f a' b')
-    {x x' y y' : MArr K} (hx : ALow x x') (hy : ALow y y') :
-    (cmpArr f x y).map obsArr = (cmpArr f x' y').map obsArr := by
-  unfold cmpArr
-  rw [hx.1, hy.1]
-  cases bcast x'.shape y'.shape with
-  | none => rfl
-  | some out =>
-    simp only [Option.map]
-    have : ∀ i, (zip f (x.bto out) (y.bto out)).get i = (zip f (x'.bto out) (y'.bto out)).get i := by
-      intro i
-      exact hf _ _ _ _ ((ALow_bto hx out).2 i) ((ALow_bto hy out).2 i)
-    have e : zip f (x.bto out) (y.bto out) = zip f (x'.bto out) (y'.bto out) := by
-      simp only [zip, Arr.bto] at this ⊢
-      congr 1
-      funext i; exact this i
-    rw [e]
+  ALow_zip (fun _ _ _ _ => strict2_congr hf) rfl (ALow_bto ha fun _ hi => bidx_valid hbc hi)
+    (ALow_bto hb fun _ hi => bidx_valid_right hbc hi)
 
 /-! ### observation -/
 
@@ -258,11 +254,30 @@ theorem obsObj_congr {x y : Obj K} (h : LowEq x y) : obsObj x = obsObj y := by
   obtain ⟨h1, h2⟩ := h
   simp only [obsObj, obsArr_congr h1]
   cases xd <;> cases yd <;> simp_all [DLow, Option.map]
-  exact obsArr_congr h2
+  exact obsArr_congr h2.2
 
 theorem obsRes_congr {r r' : Except Err (Obj K)} (h : RLow r r') : obsRes r = obsRes r' := by
   cases r <;> cases r' <;> simp_all [RLow, obsRes]
   exact obsObj_congr h
+
+/-- comparisons: low-equivalent operands give the SAME observation of the Boolean result (or both
+    fail to broadcast) -/
+theorem ni_cmp {f : Cell K → Cell K → Cell Bool} (hf : ∀ a a' b b', CLow a a' → CLow b b' → f a b = f a' b')
+    {x x' y y' : MArr K} (hx : ALow x x') (hy : ALow y y') :
+    (cmpArr f x y).map obsArr = (cmpArr f x' y').map obsArr := by
+  unfold cmpArr
+  rw [← hx.1, ← hy.1]
+  cases hb : bcast x.shape y.shape with
+  | none => rfl
+  | some out =>
+    simp only [Option.map]
+    have bx := ALow_bto hx (out := out) fun _ hi => bidx_valid hb hi
+    have bY := ALow_bto hy (out := out) fun _ hi => bidx_valid_right hb hi
+    have : ALow (zip f (x.bto out) (y.bto out)) (zip f (x'.bto out) (y'.bto out)) :=
+      ⟨rfl, fun i hi => by
+        show CLow (f _ _) (f _ _)
+        rw [hf _ _ _ _ (bx.2 i hi) (bY.2 i hi)]; exact CLow.refl _⟩
+    rw [obsArr_congr this]
 
 /-! ### the fast paths (check=False, nozeros=True) -/
 
@@ -315,23 +330,26 @@ theorem fast_spec (bad : K → Bool) (f : K → K) (safe : K) (hsafe : bad safe 
       cases h3 : a.toList.any fun c => !c.m && bad c.v with
       | true => exact ⟨fun _ => by simp, fun h => Bool.noConfusion h⟩
       | false =>
-        refine ⟨fun h => Bool.noConfusion h, fun _ => ⟨(a.map fun c => if c.m then (⟨safe, true⟩ : Cell K) else c).map (passCode f), by simp, rfl, fun i => ?_⟩⟩
+        refine ⟨fun h => Bool.noConfusion h, fun _ => ⟨(a.map fun c => if c.m then (⟨safe, true⟩ : Cell K) else c).map (passCode f), by simp, rfl, fun i _ => ?_⟩⟩
         show CLow (passCode f (if (a.get i).m then (⟨safe, true⟩ : Cell K) else a.get i)) (passCode f (a.get i))
         cases hm : (a.get i).m with
         | true => exact CLow.of_masked rfl (by simp [passCode, hm])
         | false => simp only [Bool.false_eq_true, ite_false]; exact CLow.refl _
 
+theorem unmaskedBad_congr (bad : K → Bool) {a b : MArr K} (h : ALow a b) :
+    (a.toList.any fun c => !c.m && bad c.v) = (b.toList.any fun c => !c.m && bad c.v) :=
+  toList_any_congr (fun c c' hc => by
+    cases hm : c.m with
+    | true => have hm' : c'.m = true := by rw [← hc.1, hm]
+              simp [hm']
+    | false => have e := hc.eq_of_unmasked hm
+               subst e; simp [hm]) h
+
 /-- **ni_elem, fast paths**: whether sqrt/log/arcsin/arccos(check=False), reciprocal(nozeros=True),
     exp() raise, and what they return, does not depend on hidden values -/
 theorem ni_fast (bad : K → Bool) (f : K → K) (safe : K) (hsafe : bad safe = false) {a b : MArr K}
     (h : ALow a b) : RLowA (fastCode bad f safe a) (fastCode bad f safe b) := by
-  have hU : (a.toList.any fun c => !c.m && bad c.v) = (b.toList.any fun c => !c.m && bad c.v) :=
-    toList_any_congr (fun c c' hc => by
-      cases hm : c.m with
-      | true => have hm' : c'.m = true := by rw [← hc.1, hm]
-                simp [hm']
-      | false => have e := hc.eq_of_unmasked hm
-                 subst e; simp [hm]) h
+  have hU := unmaskedBad_congr bad h
   obtain ⟨a1, a2⟩ := fast_spec bad f safe hsafe a
   obtain ⟨b1, b2⟩ := fast_spec bad f safe hsafe b
   cases hu : a.toList.any fun c => !c.m && bad c.v with
@@ -341,6 +359,18 @@ theorem ni_fast (bad : K → Bool) (f : K → K) (safe : K) (hsafe : bad safe = 
     obtain ⟨r', hr', hrb⟩ := b2 (hU ▸ hu)
     rw [hr, hr']
     exact hra.trans ((ALow_map (fun _ _ => strict1_congr (pass_strict f)) h).trans hrb.symm)
+
+/-- a successful fast path keeps the shape -/
+theorem fast_shape (bad : K → Bool) (f : K → K) (safe : K) (hsafe : bad safe = false) {a r : MArr K}
+    (h : fastCode bad f safe a = .ok r) : r.shape = a.shape := by
+  obtain ⟨a1, a2⟩ := fast_spec bad f safe hsafe a
+  cases hu : a.toList.any fun c => !c.m && bad c.v with
+  | true => rw [a1 hu] at h; cases h
+  | false =>
+    obtain ⟨r', hr', hra⟩ := a2 hu
+    rw [hr'] at h
+    cases h
+    exact hra.1
 
 def isOk {α : Type} : Except Err α → Bool
   | .ok _ => true
@@ -353,7 +383,7 @@ theorem ni_fastpath_counterexample :
     ∃ (a b : MArr Int), ALow a b ∧
       isOk (fastPinnedCode (fun x => decide (x < 0)) id a) ≠ isOk (fastPinnedCode (fun x => decide (x < 0)) id b) := by
   refine ⟨⟨[2], fun i => if i = [0] then ⟨-1, true⟩ else ⟨4, false⟩⟩,
-          ⟨[2], fun i => if i = [0] then ⟨1, true⟩ else ⟨4, false⟩⟩, ⟨rfl, fun i => ?_⟩, ?_⟩
+          ⟨[2], fun i => if i = [0] then ⟨1, true⟩ else ⟨4, false⟩⟩, ⟨rfl, fun i _ => ?_⟩, ?_⟩
   · by_cases hi : i = [0] <;> simp [hi, CLow]
   · decide
 
@@ -422,7 +452,7 @@ theorem sortLane_congr (hm : K) {xs ys : List (Cell K)} (h : F2 CLow xs ys) :
 theorem ni_reduce {k : List (Cell K) → Cell K}
     (hk : ∀ xs ys, F2 CLow xs ys → CLow (k xs) (k ys)) {a b : MArr K} (h : ALow a b)
     (axes : List Nat) : ALow (reduceCode k a axes) (reduceCode k b axes) :=
-  ⟨by simp [reduceCode, Arr.reduce, h.1], fun o => hk _ _ (lane_forall2 h axes o)⟩
+  ⟨by simp [reduceCode, Arr.reduce, h.1], fun o ho => hk _ _ (lane_forall2 h axes o ho)⟩
 
 /-- the seven reductions of the catalogue -/
 theorem ni_reduce_all {a b : MArr K} (h : ALow a b) (axes : List Nat) :
@@ -445,11 +475,21 @@ theorem ni_reduce_all {a b : MArr K} (h : ALow a b) (axes : List Nat) :
 theorem ni_sort {a b : MArr K} (h : ALow a b) (axis : Nat) : ALow (sortCode P a axis) (sortCode P b axis) := by
   have hm : maxK P (filled P.negInf a.toList) = maxK P (filled P.negInf b.toList) := by
     rw [filled_congr P.negInf (toList_forall2 h)]
-  refine ⟨h.1, fun i => ?_⟩
-  simp only [sortCode, hm, sortLane_congr P _ (lane_forall2 h [axis] (i.eraseIdx axis))]
+  refine ⟨h.1, fun i hi => ?_⟩
+  have ho := ((lanes_partition [axis] a.shape).1 i hi).1
+  simp only [sortCode, hm, sortLane_congr P _ (lane_forall2 h [axis] (dropAxes [axis] i) ho)]
   exact CLow.refl _
 
 /-! ### ni_index -/
+
+theorem valid_append_split : ∀ (s t : Shape) (i : Index), Valid (s ++ t) i →
+    Valid s (i.take s.length) ∧ Valid t (i.drop s.length)
+  | [], t, i, h => by simpa [Valid] using h
+  | n :: s, t, [], h => by simp [Valid] at h
+  | n :: s, t, a :: i, h => by
+    have h' : a < n ∧ Valid (s ++ t) i := by simpa [Valid] using h
+    have ih := valid_append_split s t i h'.2
+    simpa [Valid] using ⟨⟨h'.1, ih.1⟩, ih.2⟩
 
 /-- **ni_index**: indexing by a masked integer index object: hidden index values (including
     out-of-range ones) and hidden array values do not influence the result -/
@@ -461,10 +501,12 @@ theorem ni_index {x x' : MArr K} {idx idx' : MArr Int} (hx : ALow x x') (hi : AL
   | nil => rfl
   | cons len rest =>
     simp only [RLowA]
-    refine ⟨by rw [hi.1], fun i => ?_⟩
-    simp only [hi.1]
-    generalize List.take idx'.shape.length i = j
-    have hc := hi.2 j
+    refine ⟨by rw [hi.1], fun i hv => ?_⟩
+    have hv' : Valid (idx.shape ++ rest) i := hv
+    obtain ⟨hj, hr⟩ := valid_append_split _ _ _ hv'
+    simp only [← hi.1]
+    generalize hjd : List.take idx.shape.length i = j at hj
+    have hc := hi.2 j hj
     cases hm : (idx.get j).m with
     | true =>
       have hm' : (idx'.get j).m = true := by rw [← hc.1, hm]
@@ -476,33 +518,56 @@ theorem ni_index {x x' : MArr K} {idx idx' : MArr Int} (hx : ALow x x') (hi : AL
       | true => exact CLow.of_masked (by simp) (by simp)
       | false =>
         simp only [Bool.false_eq_true, ite_false, Bool.or_false]
-        have := hx.2 (((idx.get j).v % (len : Int)).toNat :: List.drop idx'.shape.length i)
+        simp only [Bool.or_eq_false_iff, decide_eq_false_iff_not] at hoob
+        have hpos : (0 : Int) < (len : Int) := by omega
+        have h0 := Int.emod_nonneg (idx.get j).v (Int.ne_of_gt hpos)
+        have h1 := Int.emod_lt_of_pos (idx.get j).v hpos
+        have hk : ((idx.get j).v % (len : Int)).toNat < len := by omega
+        have hvx : Valid x.shape (((idx.get j).v % (len : Int)).toNat :: List.drop idx.shape.length i) := by
+          rw [hs]; exact ⟨hk, hr⟩
+        have := hx.2 _ hvx
         exact ⟨this.1, this.2⟩
+
+theorem getitem_shape {x r : MArr K} {idx : MArr Int} (h : getitemCode x idx = .ok r) :
+    r.shape = idx.shape ++ x.shape.tail := by
+  unfold getitemCode at h
+  cases hs : x.shape with
+  | nil => rw [hs] at h; cases h
+  | cons len rest => rw [hs] at h; cases h; rfl
 
 /-! ### ni_stack, ni_shrink, ni_pickle -/
 
-theorem ni_stack {a a' b b' : MArr K} (ha : ALow a a') (hb : ALow b b') : ALow (stackArr a b) (stackArr a' b') := by
-  refine ⟨by simp [stackArr, ha.1], fun i => ?_⟩
-  match i with
-  | [] => exact ha.2 _
-  | 0 :: r => exact ha.2 _
-  | (n + 1) :: r => exact hb.2 _
+theorem ni_stack {a a' b b' : MArr K} (hs : a.shape = b.shape) (ha : ALow a a') (hb : ALow b b') :
+    ALow (stackArr a b) (stackArr a' b') := by
+  refine ⟨by simp [stackArr, ha.1], fun i hi => ?_⟩
+  match i, hi with
+  | [], hi => exact hi.elim
+  | 0 :: r, hi => exact ha.2 r hi.2
+  | (n + 1) :: r, hi => exact hb.2 r (by rw [← hs]; exact hi.2)
+
+theorem shrinkFlag_congr {a b : MArr K} (h : ALow a b) (am : Arr Bool) :
+    ((zip (fun (c : Cell K) (s : Bool) => s && !c.m) a am).toList.any id)
+      = ((zip (fun (c : Cell K) (s : Bool) => s && !c.m) b am).toList.any id) := by
+  have e : (zip (fun (c : Cell K) (s : Bool) => s && !c.m) a am).toList
+      = (zip (fun (c : Cell K) (s : Bool) => s && !c.m) b am).toList := by
+    simp only [Arr.toList, zip, ← h.1]
+    apply List.map_congr_left
+    intro i hi; simp [(h.2 i ((mem_indices _ _).1 hi)).1]
+  rw [e]
+
+theorem remaskZip_congr {a b : MArr K} (h : ALow a b) (am : Arr Bool) :
+    ALow (zip (fun (c : Cell K) (s : Bool) => (⟨c.v, c.m || !s⟩ : Cell K)) a am)
+         (zip (fun (c : Cell K) (s : Bool) => (⟨c.v, c.m || !s⟩ : Cell K)) b am) :=
+  ⟨h.1, fun i hi => strict1_congr (f := fun c => (⟨c.v, c.m || !am.get i⟩ : Cell K))
+    (fun c hc => by simp [hc]) (h.2 i hi)⟩
 
 theorem ni_shrink {a b : MArr K} (h : ALow a b) (am : Arr Bool) :
     ALow (shrinkUnshrinkArr P a am) (shrinkUnshrinkArr P b am) := by
-  have hflag : ((zip (fun (c : Cell K) (s : Bool) => s && !c.m) a am).toList.any id)
-      = ((zip (fun (c : Cell K) (s : Bool) => s && !c.m) b am).toList.any id) := by
-    have e : (zip (fun (c : Cell K) (s : Bool) => s && !c.m) a am).toList
-        = (zip (fun (c : Cell K) (s : Bool) => s && !c.m) b am).toList := by
-      simp only [Arr.toList, zip, h.1]
-      apply List.map_congr_left
-      intro i _; simp [(h.2 i).1]
-    rw [e]
   unfold shrinkUnshrinkArr
-  rw [hflag]
+  rw [shrinkFlag_congr h am]
   split
   · exact ALow.refl _
-  · exact ⟨h.1, fun i => strict1_congr (f := fun c => (⟨c.v, c.m || !am.get i⟩ : Cell K)) (fun c hc => by simp [hc]) (h.2 i)⟩
+  · exact remaskZip_congr h am
 
 /-- **ni_pickle**: what is written to the pickle does not contain the hidden values at all -/
 theorem ni_pickle_bytes {a b : MArr K} (h : ALow a b) : pickleBytes a = pickleBytes b :=
@@ -513,35 +578,97 @@ theorem ni_pickle {a b : MArr K} (h : ALow a b) : pickleArr P a = pickleArr P b 
 
 /-! ### objects: every operation of the catalogue is a congruence -/
 
-theorem DLow_map {f g : MArr K → MArr K} (hf : ∀ a b, ALow a b → ALow (f a) (g b))
-    {d d' : Option (MArr K)} (h : DLow d d') : DLow (d.map f) (d'.map g) := by
-  cases d <;> cases d' <;> simp_all [DLow, Option.map]
+theorem DLow_map {s s' : Shape} {f g : MArr K → MArr K}
+    (hf : ∀ a b, a.shape = s → ALow a b → (f a).shape = s' ∧ ALow (f a) (g b))
+    {d d' : Option (MArr K)} (h : DLow s d d') : DLow s' (d.map f) (d'.map g) := by
+  cases d with
+  | none =>
+    cases d' with
+    | none => trivial
+    | some _ => exact False.elim h
+  | some a =>
+    cases d' with
+    | none => exact False.elim h
+    | some b =>
+      have h' : a.shape = s ∧ ALow a b := h
+      exact hf a b h'.1 h'.2
 
 theorem mul_congr : ∀ a a' b b' : Cell K, CLow a a' → CLow b b' → CLow (binCode P.mul a b) (binCode P.mul a' b') :=
   fun _ _ _ _ => strict2_congr (bin_strict P.mul)
 
+theorem zipbin_congr (f : K → K → K) {a a' b b' : MArr K} (hs : a.shape = b.shape) (ha : ALow a a') (hb : ALow b b') :
+    ALow (zip (binCode f) a b) (zip (binCode f) a' b') :=
+  ALow_zip (fun _ _ _ _ => strict2_congr (bin_strict f)) hs ha hb
+
+theorem zipdiv_congr {a a' b b' : MArr K} (hs : a.shape = b.shape) (ha : ALow a a') (hb : ALow b b') :
+    ALow (zip (divCode P) a b) (zip (divCode P) a' b') :=
+  ALow_zip (fun _ _ _ _ => strict2_congr (div_strict P)) hs ha hb
+
+theorem negmap_congr {a a' : MArr K} (h : ALow a a') : ALow (a.map (passCode P.neg)) (a'.map (passCode P.neg)) :=
+  ni_lift_unary (pass_strict P.neg) h
+
 theorem unaryObj_congr {f g : Cell K → Cell K} (hf : ∀ c, c.m = true → (f c).m = true)
     (hg : ∀ c, c.m = true → (g c).m = true) {x y : Obj K} (h : LowEq x y) :
-    LowEq (unaryObj P f g x) (unaryObj P f g y) :=
-  ⟨ni_lift_unary hf h.1,
-   DLow_map (fun _ _ hd => ALow_zip (mul_congr P) (ni_lift_unary hg h.1) hd) h.2⟩
+    LowEq (unaryObj P f g x) (unaryObj P f g y) := by
+  refine ⟨ni_lift_unary hf h.1, DLow_map ?_ h.2⟩
+  intro a b hsd hd
+  exact ⟨rfl, zipbin_congr P.mul hsd.symm (ni_lift_unary hg h.1) hd⟩
 
-theorem btoObj_congr {x y : Obj K} (h : LowEq x y) (out : Shape) : LowEq (btoObj x out) (btoObj y out) :=
-  ⟨ALow_bto h.1 out, DLow_map (fun _ _ hd => ALow_bto hd out) h.2⟩
+theorem btoObj_congr {x y : Obj K} (h : LowEq x y) {out : Shape}
+    (hv : ∀ i, Valid out i → Valid x.main.shape (bidx x.main.shape i)) : LowEq (btoObj x out) (btoObj y out) := by
+  refine ⟨ALow_bto h.1 hv, DLow_map ?_ h.2⟩
+  intro a b hsd hd
+  exact ⟨rfl, ALow_bto hd (by rw [hsd]; exact hv)⟩
 
-theorem mergeD_congr {both : MArr K → MArr K → MArr K} {right : MArr K → MArr K}
-    (hb : ∀ a a' b b', ALow a a' → ALow b b' → ALow (both a b) (both a' b'))
-    (hr : ∀ a a', ALow a a' → ALow (right a) (right a'))
-    {d1 d1' d2 d2' : Option (MArr K)} (h1 : DLow d1 d1') (h2 : DLow d2 d2') :
-    DLow (mergeD both right d1 d2) (mergeD both right d1' d2') := by
-  cases d1 <;> cases d1' <;> cases d2 <;> cases d2' <;> simp_all [DLow, mergeD]
+theorem mergeD_congr {s : Shape} {both : MArr K → MArr K → MArr K} {right : MArr K → MArr K}
+    (hb : ∀ a a' b b', a.shape = s → b.shape = s → ALow a a' → ALow b b' →
+      (both a b).shape = s ∧ ALow (both a b) (both a' b'))
+    (hr : ∀ a a', a.shape = s → ALow a a' → (right a).shape = s ∧ ALow (right a) (right a'))
+    {d1 d1' d2 d2' : Option (MArr K)} (h1 : DLow s d1 d1') (h2 : DLow s d2 d2') :
+    DLow s (mergeD both right d1 d2) (mergeD both right d1' d2') := by
+  cases d1 with
+  | none =>
+    cases d1' with
+    | some _ => exact False.elim h1
+    | none =>
+      cases d2 with
+      | none =>
+        cases d2' with
+        | none => trivial
+        | some _ => exact False.elim h2
+      | some b =>
+        cases d2' with
+        | none => exact False.elim h2
+        | some b' =>
+          have h2' : b.shape = s ∧ ALow b b' := h2
+          exact hr b b' h2'.1 h2'.2
+  | some a =>
+    cases d1' with
+    | none => exact False.elim h1
+    | some a' =>
+      have h1' : a.shape = s ∧ ALow a a' := h1
+      cases d2 with
+      | none =>
+        cases d2' with
+        | none => exact h1'
+        | some _ => exact False.elim h2
+      | some b =>
+        cases d2' with
+        | none => exact False.elim h2
+        | some b' =>
+          have h2' : b.shape = s ∧ ALow b b' := h2
+          exact hb a a' b b' h1'.1 h2'.1 h1'.2 h2'.2
 
-theorem zipbin_congr (f : K → K → K) : ∀ a a' b b' : MArr K, ALow a a' → ALow b b' →
-    ALow (zip (binCode f) a b) (zip (binCode f) a' b') :=
-  fun _ _ _ _ => ALow_zip (fun _ _ _ _ => strict2_congr (bin_strict f))
+theorem zipbin_merge (f : K → K → K) (s : Shape) : ∀ a a' b b' : MArr K, a.shape = s → b.shape = s → ALow a a' → ALow b b' →
+    (zip (binCode f) a b).shape = s ∧ ALow (zip (binCode f) a b) (zip (binCode f) a' b') :=
+  fun _ _ _ _ h1 h2 ha hb => ⟨h1, zipbin_congr f (h1.trans h2.symm) ha hb⟩
 
-theorem negmap_congr : ∀ a a' : MArr K, ALow a a' → ALow (a.map (passCode P.neg)) (a'.map (passCode P.neg)) :=
-  fun _ _ => ni_lift_unary (pass_strict P.neg)
+theorem id_merge (s : Shape) : ∀ a a' : MArr K, a.shape = s → ALow a a' → (id a).shape = s ∧ ALow (id a) (id a') :=
+  fun _ _ h1 h => ⟨h1, h⟩
+
+theorem neg_merge (s : Shape) : ∀ a a' : MArr K, a.shape = s → ALow a a' →
+    (a.map (passCode P.neg)).shape = s ∧ ALow (a.map (passCode P.neg)) (a'.map (passCode P.neg)) :=
+  fun _ _ h1 h => ⟨h1, negmap_congr P h⟩
 
 /-- **ni_lift** for the unary operations of the catalogue, errors included -/
 theorem evalU_congr (hexp : P.expOv P.zero = false) (hsq : sqrtBad P P.one = false)
@@ -553,11 +680,33 @@ theorem evalU_congr (hexp : P.expOv P.zero = false) (hsq : sqrtBad P P.one = fal
     intro bad f safe g hs hg
     have := ni_fast bad f safe hs h.1
     unfold fastObj
+    cases h1 : fastCode bad f safe x.main with
+    | error e =>
+      cases h2 : fastCode bad f safe y.main with
+      | error e' => rw [h1, h2] at this; exact this
+      | ok r' => rw [h1, h2] at this; exact this.elim
+    | ok r =>
+      cases h2 : fastCode bad f safe y.main with
+      | error e' => rw [h1, h2] at this; exact this.elim
+      | ok r' =>
+        rw [h1, h2] at this
+        have hr : ALow r r' := this
+        have hsh := fast_shape bad f safe hs h1
+        refine ⟨hr, DLow_map ?_ h.2⟩
+        intro a b hsd hd
+        exact ⟨rfl, zipbin_congr P.mul (hsh.trans hsd.symm) (ni_lift_unary hg hr) hd⟩
+  have fastPlain : ∀ (bad : K → Bool) (f : K → K) (safe : K), bad safe = false →
+      RLow ((fastCode bad f safe x.main).map fun r => (⟨r, none⟩ : Obj K))
+           ((fastCode bad f safe y.main).map fun r => (⟨r, none⟩ : Obj K)) := by
+    intro bad f safe hs
+    have := ni_fast bad f safe hs h.1
     cases h1 : fastCode bad f safe x.main <;> cases h2 : fastCode bad f safe y.main <;>
-      simp_all [RLowA, RLow]
-    exact ⟨this, DLow_map (fun _ _ hd => ALow_zip (mul_congr P) (ni_lift_unary hg this) hd) h.2⟩
+      rw [h1, h2] at this <;> first | exact this | exact this.elim | exact ⟨this, trivial⟩
   cases op
-  case neg => exact ⟨ni_lift_unary (pass_strict _) h.1, DLow_map (negmap_congr P) h.2⟩
+  case neg =>
+    refine ⟨ni_lift_unary (pass_strict _) h.1, DLow_map ?_ h.2⟩
+    intro a b hsd hd
+    exact ⟨hsd, negmap_congr P hd⟩
   case abs => exact unaryObj_congr P (pass_strict _) (pass_strict _) h
   case sign => exact ⟨ni_lift_unary (pass_strict _) h.1, trivial⟩
   case sin => exact unaryObj_congr P (pass_strict _) (pass_strict _) h
@@ -567,9 +716,9 @@ theorem evalU_congr (hexp : P.expOv P.zero = false) (hsq : sqrtBad P P.one = fal
   case sqrt =>
     exact unaryObj_congr P (g := fun c => scaleCode P P.half (recipCode P (sqrtCode P c))) (sqrt_strict P) (fun c hc => recip_strict P _ (sqrt_strict P c hc)) h
   case log =>
-    exact ⟨ni_lift_unary (log_strict P) h.1,
-      DLow_map (fun _ _ hd => ALow_zip (fun _ _ _ _ => strict2_congr (div_strict P)) hd
-        (ni_lift_unary (logNoNegs_strict P) h.1)) h.2⟩
+    refine ⟨ni_lift_unary (log_strict P) h.1, DLow_map ?_ h.2⟩
+    intro a b hsd hd
+    exact ⟨hsd, zipdiv_congr P hsd hd (ni_lift_unary (logNoNegs_strict P) h.1)⟩
   case expC => exact unaryObj_congr P (expChecked_strict P) (expChecked_strict P) h
   case recip =>
     exact unaryObj_congr P (g := fun c => let r := recipCode P c; binCode P.mul (passCode P.neg r) r) (recip_strict P)
@@ -581,105 +730,115 @@ theorem evalU_congr (hexp : P.expOv P.zero = false) (hsq : sqrtBad P P.one = fal
     have := ni_fast (logBad P) P.log P.one hlg h.1
     show RLow (logFastObj P x) (logFastObj P y)
     unfold logFastObj
-    cases h1 : fastCode (logBad P) P.log P.one x.main <;> cases h2 : fastCode (logBad P) P.log P.one y.main <;>
-      simp_all [RLowA, RLow]
-    exact ⟨this, DLow_map (fun _ _ hd => ALow_zip (fun _ _ _ _ => strict2_congr (div_strict P)) hd h.1) h.2⟩
+    cases h1 : fastCode (logBad P) P.log P.one x.main with
+    | error e =>
+      cases h2 : fastCode (logBad P) P.log P.one y.main with
+      | error e' => rw [h1, h2] at this; exact this
+      | ok r' => rw [h1, h2] at this; exact this.elim
+    | ok r =>
+      cases h2 : fastCode (logBad P) P.log P.one y.main with
+      | error e' => rw [h1, h2] at this; exact this.elim
+      | ok r' =>
+        rw [h1, h2] at this
+        have hr : ALow r r' := this
+        have hsh := fast_shape _ _ _ hlg h1
+        refine ⟨hr, DLow_map ?_ h.2⟩
+        intro a b hsd hd
+        exact ⟨hsd.trans hsh.symm, zipdiv_congr P hsd hd h.1⟩
   case exp => exact fastObj_congr _ _ _ _ hexp (fun c hc => hc)
   case recipNz => exact fastObj_congr _ _ _ _ hrc (fun c hc => bin_strict _ _ _ (Or.inr hc))
-  case arcsinNc =>
-    have := ni_fast (arcBad P) P.asin P.zero harc h.1
-    show RLow (arcsinFastObj P x) (arcsinFastObj P y)
-    unfold arcsinFastObj
-    cases h1 : fastCode (arcBad P) P.asin P.zero x.main <;> cases h2 : fastCode (arcBad P) P.asin P.zero y.main <;>
-      simp_all [RLowA, RLow, Except.map, LowEq, DLow]
-  case arccosNc =>
-    have := ni_fast (arcBad P) P.acos P.zero harc h.1
-    show RLow (arccosFastObj P x) (arccosFastObj P y)
-    unfold arccosFastObj
-    cases h1 : fastCode (arcBad P) P.acos P.zero x.main <;> cases h2 : fastCode (arcBad P) P.acos P.zero y.main <;>
-      simp_all [RLowA, RLow, Except.map, LowEq, DLow]
+  case arcsinNc => exact fastPlain _ _ _ harc
+  case arccosNc => exact fastPlain _ _ _ harc
   case wod => exact ⟨h.1, trivial⟩
   case pickle =>
     refine ⟨by show ALow (pickleArr P x.main) (pickleArr P y.main); rw [ni_pickle P h.1]; exact ALow.refl _, ?_⟩
-    exact DLow_map (fun a b hd => by rw [ni_pickle P hd]; exact ALow.refl _) h.2
+    refine DLow_map ?_ h.2
+    intro a b hsd hd
+    exact ⟨hsd, by rw [ni_pickle P hd]; exact ALow.refl _⟩
 
 theorem addObj_congr {x x' y y' : Obj K} (hx : LowEq x x') (hy : LowEq y y') :
     RLow (addObj P x y) (addObj P x' y') := by
   unfold addObj
   rw [← hx.1.1, ← hy.1.1]
-  cases bcast x.main.shape y.main.shape with
+  cases hb : bcast x.main.shape y.main.shape with
   | none => rfl
   | some out =>
-    have bx := btoObj_congr hx out
-    have bY := btoObj_congr hy out
-    exact ⟨zipbin_congr _ _ _ _ _ bx.1 bY.1, mergeD_congr (zipbin_congr _) (fun _ _ h => h) bx.2 bY.2⟩
+    have bx := btoObj_congr hx (out := out) fun _ hi => bidx_valid hb hi
+    have bY := btoObj_congr hy (out := out) fun _ hi => bidx_valid_right hb hi
+    exact ⟨zipbin_congr _ rfl bx.1 bY.1, mergeD_congr (zipbin_merge _ _) (id_merge _) bx.2 bY.2⟩
 
 theorem subObj_congr {x x' y y' : Obj K} (hx : LowEq x x') (hy : LowEq y y') :
     RLow (subObj P x y) (subObj P x' y') := by
   unfold subObj
   rw [← hx.1.1, ← hy.1.1]
-  cases bcast x.main.shape y.main.shape with
+  cases hb : bcast x.main.shape y.main.shape with
   | none => rfl
   | some out =>
-    have bx := btoObj_congr hx out
-    have bY := btoObj_congr hy out
-    exact ⟨zipbin_congr _ _ _ _ _ bx.1 bY.1, mergeD_congr (zipbin_congr _) (negmap_congr P) bx.2 bY.2⟩
+    have bx := btoObj_congr hx (out := out) fun _ hi => bidx_valid hb hi
+    have bY := btoObj_congr hy (out := out) fun _ hi => bidx_valid_right hb hi
+    exact ⟨zipbin_congr _ rfl bx.1 bY.1, mergeD_congr (zipbin_merge _ _) (neg_merge P _) bx.2 bY.2⟩
 
 theorem mulObj_congr {x x' y y' : Obj K} (hx : LowEq x x') (hy : LowEq y y') :
     RLow (mulObj P x y) (mulObj P x' y') := by
   unfold mulObj
   rw [← hx.1.1, ← hy.1.1]
-  cases bcast x.main.shape y.main.shape with
+  cases hb : bcast x.main.shape y.main.shape with
   | none => rfl
   | some out =>
-    have bx := btoObj_congr hx out
-    have bY := btoObj_congr hy out
-    exact ⟨zipbin_congr _ _ _ _ _ bx.1 bY.1,
-      mergeD_congr (zipbin_congr _) (fun _ _ h => h)
-        (DLow_map (fun _ _ hd => zipbin_congr _ _ _ _ _ hd bY.1) bx.2)
-        (DLow_map (fun _ _ hd => zipbin_congr _ _ _ _ _ bx.1 hd) bY.2)⟩
+    have bx := btoObj_congr hx (out := out) fun _ hi => bidx_valid hb hi
+    have bY := btoObj_congr hy (out := out) fun _ hi => bidx_valid_right hb hi
+    refine ⟨zipbin_congr _ rfl bx.1 bY.1,
+      mergeD_congr (s := out) (zipbin_merge _ _) (id_merge _) (DLow_map ?_ bx.2) (DLow_map ?_ bY.2)⟩
+    · intro a b hsd hd
+      exact ⟨hsd, zipbin_congr _ hsd hd bY.1⟩
+    · intro a b hsd hd
+      exact ⟨rfl, zipbin_congr _ hsd.symm bx.1 hd⟩
 
 theorem divObj_congr {x x' y y' : Obj K} (hx : LowEq x x') (hy : LowEq y y') :
     RLow (divObj P x y) (divObj P x' y') := by
   unfold divObj
   rw [← hx.1.1, ← hy.1.1]
-  cases bcast x.main.shape y.main.shape with
+  cases hb : bcast x.main.shape y.main.shape with
   | none => rfl
   | some out =>
-    have bx := btoObj_congr hx out
-    have bY := btoObj_congr hy out
+    have bx := btoObj_congr hx (out := out) fun _ hi => bidx_valid hb hi
+    have bY := btoObj_congr hy (out := out) fun _ hi => bidx_valid_right hb hi
     have hy1 : ALow ((btoObj y out).main.map (nonZero P)) ((btoObj y' out).main.map (nonZero P)) :=
       ni_lift_unary (nonZero_strict P) bY.1
     have hinv : ALow (((btoObj y out).main.map (nonZero P)).map fun c => (⟨P.div P.one c.v, c.m⟩ : Cell K))
         (((btoObj y' out).main.map (nonZero P)).map fun c => (⟨P.div P.one c.v, c.m⟩ : Cell K)) :=
       ni_lift_unary (f := fun c => (⟨P.div P.one c.v, c.m⟩ : Cell K)) (fun c hc => hc) hy1
-    refine ⟨zipbin_congr _ _ _ _ _ bx.1 hy1, mergeD_congr (zipbin_congr _) (negmap_congr P)
-      (DLow_map (fun _ _ hd => zipbin_congr _ _ _ _ _ hd hinv) bx.2)
-      (DLow_map (fun _ _ hd => ?_) bY.2)⟩
-    refine zipbin_congr _ _ _ _ _ bx.1 (zipbin_congr _ _ _ _ _ (zipbin_congr _ _ _ _ _ ?_ hinv) hinv)
+    refine ⟨zipbin_congr _ rfl bx.1 hy1, mergeD_congr (s := out) (zipbin_merge _ _) (neg_merge P _)
+      (DLow_map ?_ bx.2) (DLow_map ?_ bY.2)⟩
+    · intro a b hsd hd
+      exact ⟨hsd, zipbin_congr _ hsd hd hinv⟩
+    intro a b hsd hd
+    refine ⟨rfl, zipbin_congr _ rfl bx.1 (zipbin_congr _ rfl (zipbin_congr _ rfl ?_ hinv) hinv)⟩
     exact ALow_zip (f := fun (c d : Cell K) => (⟨d.v, d.m || c.m⟩ : Cell K))
       (fun _ _ _ _ => strict2_congr (f := fun (c d : Cell K) => (⟨d.v, d.m || c.m⟩ : Cell K)) (fun a b hab => by
         cases hab with
         | inl h => simp [h]
-        | inr h => simp [h])) hy1 hd
+        | inr h => simp [h])) hsd.symm hy1 hd
 
 theorem stackObj_congr {x x' y y' : Obj K} (hx : LowEq x x') (hy : LowEq y y') :
     RLow (stackObj P x y) (stackObj P x' y') := by
   unfold stackObj
   rw [← hx.1.1, ← hy.1.1]
-  cases bcast x.main.shape y.main.shape with
+  cases hb : bcast x.main.shape y.main.shape with
   | none => rfl
   | some out =>
-    have bx := btoObj_congr hx out
-    have bY := btoObj_congr hy out
-    refine ⟨ni_stack bx.1 bY.1, ?_⟩
+    have bx := btoObj_congr hx (out := out) fun _ hi => bidx_valid hb hi
+    have bY := btoObj_congr hy (out := out) fun _ hi => bidx_valid_right hb hi
+    refine ⟨ni_stack rfl bx.1 bY.1, ?_⟩
     have hz : ALow (Arr.const out (⟨P.zero, false⟩ : Cell K)) (Arr.const out (⟨P.zero, false⟩ : Cell K)) := ALow.refl _
     obtain ⟨_, hdx⟩ := bx; obtain ⟨_, hdy⟩ := bY
     revert hdx hdy
     cases (btoObj x out).d <;> cases (btoObj x' out).d <;> cases (btoObj y out).d <;> cases (btoObj y' out).d <;>
       simp only [DLow] <;> intro hdx hdy <;>
       first | trivial | exact hdx.elim | exact hdy.elim
-            | exact ni_stack hdx hz | exact ni_stack hz hdy | exact ni_stack hdx hdy
+            | exact ⟨by simp [stackArr, btoObj, Arr.bto, hdx.1], ni_stack (by simp [Arr.const, hdx.1, btoObj, Arr.bto]) hdx.2 hz⟩
+            | exact ⟨by simp [stackArr, btoObj, Arr.bto, Arr.const], ni_stack (by simp [Arr.const, hdy.1, btoObj, Arr.bto]) hz hdy.2⟩
+            | exact ⟨by simp [stackArr, btoObj, Arr.bto, hdx.1], ni_stack (by rw [hdx.1, hdy.1]; rfl) hdx.2 hdy.2⟩
 
 /-- **ni_lift** for the binary operations (broadcasting, derivative merging, zero-divisor masking) and
     **ni_stack** at object level -/
@@ -697,9 +856,13 @@ theorem evalR_congr (op : ROp) (axes : List Nat) {x y : Obj K} (h : LowEq x y) :
   obtain ⟨r1, r2, r3, r4, r5, r6, r7⟩ := ni_reduce_all P h.1 axes
   cases op
   case sum =>
-    exact ⟨r1, DLow_map (fun _ _ hd => (ni_reduce_all P hd axes).1) h.2⟩
+    refine ⟨r1, DLow_map ?_ h.2⟩
+    intro a b hsd hd
+    exact ⟨by show dropAxes axes a.shape = dropAxes axes x.main.shape; rw [hsd], (ni_reduce_all P hd axes).1⟩
   case mean =>
-    exact ⟨r2, DLow_map (fun _ _ hd => (ni_reduce_all P hd axes).2.1) h.2⟩
+    refine ⟨r2, DLow_map ?_ h.2⟩
+    intro a b hsd hd
+    exact ⟨by show dropAxes axes a.shape = dropAxes axes x.main.shape; rw [hsd], (ni_reduce_all P hd axes).2.1⟩
   case max => exact ⟨r3, trivial⟩
   case min => exact ⟨r4, trivial⟩
   case argmax => exact ⟨r5, trivial⟩
@@ -732,7 +895,8 @@ theorem getitemObj_congr {x y : Obj K} (h : LowEq x y) {idx idx' : MArr Int} (hi
         | none => rw [hx, hy] at h2; exact h2.elim
         | some dy =>
           rw [hx, hy] at h2
-          have hd := ni_index (show ALow dx dy from h2) hi
+          have h2' : dx.shape = x.main.shape ∧ ALow dx dy := h2
+          have hd := ni_index h2'.2 hi
           show RLow (match getitemCode dx idx with
                      | .error e => .error e
                      | .ok rd => .ok ⟨r, some rd⟩)
@@ -747,28 +911,21 @@ theorem getitemObj_congr {x y : Obj K} (h : LowEq x y) {idx idx' : MArr Int} (hi
           | ok rd =>
             cases e4 : getitemCode dy idx' with
             | error e' => rw [e3, e4] at hd; exact hd.elim
-            | ok rd' => rw [e3, e4] at hd; exact ⟨hm, hd⟩
+            | ok rd' =>
+              rw [e3, e4] at hd
+              exact ⟨hm, by show rd.shape = r.shape; rw [getitem_shape e3, getitem_shape e1, h2'.1], hd⟩
 
 theorem shrinkUnshrinkObj_congr {x y : Obj K} (h : LowEq x y) (am : Arr Bool) :
     LowEq (shrinkUnshrinkObj P x am) (shrinkUnshrinkObj P y am) := by
-  have hflag : ((zip (fun (c : Cell K) (s : Bool) => s && !c.m) x.main am).toList.any id)
-      = ((zip (fun (c : Cell K) (s : Bool) => s && !c.m) y.main am).toList.any id) := by
-    have e : (zip (fun (c : Cell K) (s : Bool) => s && !c.m) x.main am).toList
-        = (zip (fun (c : Cell K) (s : Bool) => s && !c.m) y.main am).toList := by
-      simp only [Arr.toList, zip, h.1.1]
-      apply List.map_congr_left
-      intro i _; simp [(h.1.2 i).1]
-    rw [e]
-  have hz : ∀ a b : MArr K, ALow a b →
-      ALow (zip (fun (c : Cell K) (s : Bool) => (⟨c.v, c.m || !s⟩ : Cell K)) a am)
-           (zip (fun (c : Cell K) (s : Bool) => (⟨c.v, c.m || !s⟩ : Cell K)) b am) :=
-    fun a b hab => ⟨hab.1, fun i => strict1_congr (f := fun c => (⟨c.v, c.m || !am.get i⟩ : Cell K))
-      (fun c hc => by simp [hc]) (hab.2 i)⟩
   unfold shrinkUnshrinkObj
-  rw [hflag]
+  rw [shrinkFlag_congr h.1 am]
   split
-  · exact ⟨ALow.refl _, DLow_map (fun _ _ _ => ALow.refl _) h.2⟩
-  · exact ⟨hz _ _ h.1, DLow_map hz h.2⟩
+  · refine ⟨ALow.refl _, DLow_map ?_ h.2⟩
+    intro a b _ _
+    exact ⟨rfl, ALow.refl _⟩
+  · refine ⟨remaskZip_congr h.1 am, DLow_map ?_ h.2⟩
+    intro a b hsd hd
+    exact ⟨hsd, remaskZip_congr hd am⟩
 
 /-! ### ni_program: every expression tree, any depth -/
 
